@@ -110,6 +110,71 @@ def t_rename(src, rel):
     return ast.unparse(tree) + '\n'
 
 
+def t_rename_deep(src, rel):
+    """every plain local of every function renamed with proper scoping (closures and comprehensions included)"""
+    from sa import canon
+    tree = ast.parse(src)
+    for _q, fnode in canon._functions(tree):
+        used = canon._all_ids(fnode)
+        for name, _d in canon.signature(fnode):
+            new = name + '_q'
+            if new in used:
+                continue
+            canon._rename(fnode, name, new)
+    return ast.unparse(tree) + '\n'
+
+
+_PARAM_TABLE = None
+
+
+def _param_table():
+    """{callee simple name: set of parameter names} over the package (class name stands for its __init__)"""
+    global _PARAM_TABLE
+    if _PARAM_TABLE is None:
+        from sa import canon
+        _PARAM_TABLE = {}
+        for rel in py_files():
+            with open(os.path.join(ROOT, rel), encoding='utf-8') as f:
+                tree = ast.parse(f.read())
+            for q, fnode in canon._functions(tree):
+                short = q.rsplit('.', 1)[-1]
+                names = [short]
+                if short == '__init__' and '.' in q:
+                    names.append(q.rsplit('.', 2)[-2])
+                ps = {x for x in canon._params(fnode) if x not in ('self', 'cls')}
+                for nm in names:
+                    _PARAM_TABLE.setdefault(nm, set()).update(ps)
+    return _PARAM_TABLE
+
+
+def t_rename_params(src, rel, calls_only=False):
+    """every parameter (except self/cls) of every function renamed, keyword arguments at call sites following"""
+    from sa import canon
+    table = _param_table()
+    tree = ast.parse(src)
+    if not calls_only:
+        for _q, fnode in canon._functions(tree):
+            used = canon._all_ids(fnode)
+            for name in sorted(canon._params(fnode)):
+                if name in ('self', 'cls') or name + '_p' in used:
+                    continue
+                canon._rename(fnode, name, name + '_p')
+    cls_of = {}
+    for k in ast.walk(tree):
+        if isinstance(k, ast.ClassDef):
+            for c in ast.walk(k):
+                if isinstance(c, ast.Call) and isinstance(c.func, ast.Name) and c.func.id == 'cls':
+                    cls_of[id(c)] = k.name
+    for c in ast.walk(tree):
+        if isinstance(c, ast.Call) and c.keywords:
+            nm = c.func.id if isinstance(c.func, ast.Name) else (c.func.attr if isinstance(c.func, ast.Attribute) else None)
+            nm = cls_of.get(id(c), nm)
+            for kw in c.keywords:
+                if kw.arg and kw.arg in table.get(nm, ()):
+                    kw.arg = kw.arg + '_p'
+    return ast.unparse(tree) + '\n'
+
+
 def t_docstr(src, rel):
     tree = ast.parse(src)
     for n in ast.walk(tree):
@@ -123,7 +188,7 @@ def t_docstr(src, rel):
     return ast.unparse(tree) + '\n'
 
 
-TRANSFORMS = {'reformat': t_reformat, 'rename': t_rename, 'docstr': t_docstr}
+TRANSFORMS = {'reformat': t_reformat, 'rename': t_rename, 'rename_deep': t_rename_deep, 'rename_params': t_rename_params, 'docstr': t_docstr}
 
 
 def main():
@@ -134,6 +199,24 @@ def main():
         ALL = packs
     which = args or list(TRANSFORMS)
     verbose = '--all' in sys.argv
+    emit = [a[7:] for a in sys.argv[1:] if a.startswith('--emit=')]
+    if emit:
+        # write the transformed tree over a scratch copy (to run the project's own tests on it)
+        for rel in py_files():
+            with open(os.path.join(ROOT, rel), encoding='utf-8') as f:
+                s = f.read()
+            with open(os.path.join(emit[0], rel), 'w', encoding='utf-8') as f:
+                f.write(TRANSFORMS[which[0]](s, rel))
+        if which[0] == 'rename_params':
+            for d, _x, files in os.walk(os.path.join(emit[0], 'tests')):
+                for fn in files:
+                    if fn.endswith('.py'):
+                        pth = os.path.join(d, fn)
+                        with open(pth, encoding='utf-8') as f:
+                            s = f.read()
+                        with open(pth, 'w', encoding='utf-8') as f:
+                            f.write(t_rename_params(s, pth, calls_only=True))
+        return 0
     base = {}
     for pid in ALL:
         pack = importlib.import_module(f'sa.packs.{pid.lower()}')
